@@ -55,6 +55,8 @@ LEVEL_NOTE = ("partial: the RNG's distribution is trusted; agreement with popula
 TECHNIQUE = ("Lean 4 machine-checked proof over an executable model + differential correspondence on "
              "recorded random draws")
 
+RAW_SELS = ["use_std_for_uncertainty", "use_error_on_mean_for_uncertainty",
+            "use_error_weighted_mean_as_value", "use_propagated_error_for_uncertainty"]
 SIZES_QUICK = [7, 7, 100, 100, 100, 2000]
 SIZES_THOROUGH = [7, 100, 100, 1000, 2000, 10000]
 
@@ -255,6 +257,17 @@ def gen_case(rng, sizes, force_kind=None):
             sd = math.sqrt(sum(x * x for x in t) / (m - 1)) or 1.0
             raw[str(v)] = [bits(vals[v] + errs[v] * math.sqrt(m) * x / sd) for x in t]
     c["raw"] = raw
+    # half of the repeated-measurement sources carry individual uncertainties and a selector
+    # history (use_std / use_error_weighted_mean / use_propagated_error / ...): the draws must be
+    # centred on the value IN USE and scaled by the uncertainty IN USE, whichever statistic that is
+    rawsel = {}
+    for v in raw:
+        if rng.random() < 0.6:
+            m = len(raw[v])
+            es = [rng.choice([0.5, 1.0, 2.0, 0.25]) * abs(errs[int(v)]) * math.sqrt(m) for _ in range(m)]
+            sels = [rng.choice(RAW_SELS) for _ in range(rng.choice([1, 1, 2, 3]))]
+            rawsel[v] = {"es": [bits(e) for e in es], "sels": sels}
+    c["rawsel"] = rawsel
     N = rng.choice(sizes)
     c["per"] = N if rng.random() < 0.5 else 0
     c["global"] = rng.choice([5, 11, 50]) if c["per"] else N
@@ -346,8 +359,15 @@ def observe(q, case):
             meas = []
             for i in range(case["n_meas"]):
                 data = case.get("raw", {}).get(str(i))
-                meas.append(q.Measurement([unbits(b) for b in data]) if data
-                            else q.Measurement(vals[i], errs[i]))
+                rs = case.get("rawsel", {}).get(str(i))
+                if data and rs:
+                    mm = q.Measurement([unbits(b) for b in data], [unbits(b) for b in rs["es"]])
+                    for sel in rs["sels"]:
+                        getattr(mm, sel)()
+                    meas.append(mm)
+                else:
+                    meas.append(q.Measurement([unbits(b) for b in data]) if data
+                                else q.Measurement(vals[i], errs[i]))
             out["vals_eff"] = [float(m.value) for m in meas]
             out["errs_eff"] = [float(m.error) for m in meas]
             out["stds"] = [float(m.std) for m in meas]
@@ -417,6 +437,9 @@ def model_line(case, o):
 
 def describe(case):
     raw = {"m" + k: [unbits(b) for b in v] for k, v in case.get("raw", {}).items()}
+    for k, rs in case.get("rawsel", {}).items():
+        raw["m" + k] = {"readings": raw["m" + k], "uncertainties": [unbits(b) for b in rs["es"]],
+                        "then": rs["sels"]}
     return "{} [corr={}, size per={} global={}, method={}, numpy seed={}{}{}]".format(
         pretty(case), case.get("kind"), case["per"],
         case["global"], case["method"], case["npseed"],
@@ -516,6 +539,22 @@ def judge(case, o, m, failures, dist):
     return True, (offdiag or discarded)
 
 
+def permuted(o):
+    """the observation re-labelled: row r of the offsets belongs to source order[pi[r]], and the
+    correlation matrix is read in that order"""
+    import itertools
+    k = len(o["order"])
+    out = []
+    for pi in itertools.permutations(range(k)):
+        if list(pi) == list(range(k)):
+            continue
+        oa = dict(o)
+        oa["order"] = [o["order"][j] for j in pi]
+        oa["R"] = [[o["R"][a][b] for b in pi] for a in pi]
+        out.append(oa)
+    return out
+
+
 def ill_conditioned(o):
     R = o.get("R")
     if not R or len(R) < 3:
@@ -555,7 +594,22 @@ def run(ctx, n_cases, sizes, ref=False, cases=None, force_kind=None):
         if "exception" not in o and (ill_conditioned(o) or o.get("redrawn")):
             skipped += 1
             continue
-        _, nt = judge(c, o, mod.get(i, {}), failures, dist)
+        fl = []
+        _, nt = judge(c, o, mod.get(i, {}), fl, dist)
+        if fl and fl[0].get("signature", "").endswith(":samples") and len(o.get("order", [])) in (2, 3):
+            # which row of the offset matrix belongs to which source is the library's business:
+            # any CONSISTENT assignment (rows and correlation matrix permuted alike) is the same
+            # normal model — retry the model under every relabelling before accusing the code
+            alts = permuted(o)
+            res_alt = ctx.model([model_line(c, oa) for oa in alts], ref=ref)
+            for oa, ma in zip(alts, res_alt):
+                f2 = []
+                _, nt2 = judge(c, oa, ma, f2, collections.Counter())
+                if not f2:
+                    fl, nt = [], nt2
+                    dist["sources-in-another-row-order"] += 1
+                    break
+        failures += fl
         if nt:
             nontrivial.add(canon_hash([c["nodes"], c["vals"], c["errs"], c["rho"], c["per"],
                                        c["global"]]))
@@ -701,6 +755,17 @@ def _ref_eval(case, env):
 
 
 def reference_check(case, o):
+    """numpy reference (see _reference_once); a sample mismatch is accepted when a consistent
+    relabelling of the offset rows reproduces the stored samples"""
+    f = _reference_once(case, o)
+    if f and f.get("signature", "").endswith(":samples") and len(o.get("order", [])) in (2, 3):
+        for oa in permuted(o):
+            if _reference_once(case, oa) is None:
+                return None
+    return f
+
+
+def _reference_once(case, o):
     """numpy reference of the statement: samples = finite f(mu + sigma (L Z)), mean, n-1 std;
     uncorrelated when the assignment is not positive definite.  Returns a failure or None."""
     base = {"input": describe(case), "case": case, "oracle": "independent", "kind": "violation"}
